@@ -23,8 +23,9 @@ REGISTRY = []
 
 
 class Ob:
-    def __init__(self, fn, prop, tier, timeout, desc, bounds, probe, outside, kf, shards=1):
+    def __init__(self, fn, prop, tier, timeout, desc, bounds, probe, outside, kf, shards=1, features="std"):
         self.shards = shards
+        self.features = features
         self.fn = fn
         self.name = fn.__name__
         self.prop = prop
@@ -37,9 +38,9 @@ class Ob:
         self.kf = kf or []
 
 
-def obligation(prop, tier="quick", timeout=600, desc="", bounds="", probe=None, outside="", kf=None, shards=1):
+def obligation(prop, tier="quick", timeout=600, desc="", bounds="", probe=None, outside="", kf=None, shards=1, features="std"):
     def deco(fn):
-        REGISTRY.append(Ob(fn, prop, tier, timeout, desc, bounds, probe, outside, kf, shards))
+        REGISTRY.append(Ob(fn, prop, tier, timeout, desc, bounds, probe, outside, kf, shards, features))
         return fn
 
     return deco
@@ -115,6 +116,25 @@ class Ctx:
         self.state = State(st2.pc, st2.mem)
         self.results[name or path] = v
         return v
+
+    def call_named(self, pattern, *args, name=None):
+        """call the unique MIR body whose raw name matches the regex `pattern`"""
+        import re as _re
+        cands = [f for f in self.prog.runtime if _re.search(pattern, f.name)]
+        if len(cands) != 1:
+            raise Unsupported(f"call_named({pattern!r}): {len(cands)} candidates")
+        f = cands[0]
+        st = State(z3.And(self.state.pc, *self.assume) if self.assume else self.state.pc, dict(self.state.mem))
+        st2, v = self.ex.exec_fn(f, list(args), st)
+        if st2 is None:
+            raise Unsupported(f"{f.name} never returns normally")
+        self.state = State(st2.pc, st2.mem)
+        self.results[name or pattern] = v
+        return v
+
+    def summarize_raw(self, regex, fn):
+        """contract for calls whose callee text matches `regex` (generic trait calls such as <S as Serializer>::serialize_i64)"""
+        self.ex.raw_summaries.append((regex, fn))
 
     def summarize(self, short_name, fn):
         """use a contract (proved by another obligation) in place of a callee's body -- assume/guarantee composition"""
